@@ -21,6 +21,7 @@ mod project;
 mod render;
 mod stages;
 mod tsread;
+mod typegen;
 mod util;
 
 use std::env;
@@ -57,6 +58,7 @@ fn main() {
         "opfile-cli" => opfile::run_cli(rest),
         "loader-child" => loader::run_child(rest),
         "tsread" => tsread::run(rest),
+        "typegen" => typegen::run(rest),
         other => {
             eprintln!("unknown command {other}");
             2
